@@ -17,12 +17,31 @@ class ConnOnly:
         return None
 
 
+class IdOnly:
+    """independent evaluator for an alternative that is a bare object id (`9`, `9b`): by the reference semantics of the matcher
+    language (messages on the object, mentioning, creating or destroying it); where those are silent, the tool's own parse"""
+    def __init__(self, matcher_mod, text, oid, gen_letters):
+        self.tool = matcher_mod.parse(text).simplify()
+        self.ast = ['bare', None, ['idgen', oid, gen_letters] if gen_letters else ['id', oid]]
+
+    def matches(self, msg):
+        from . import refmatch
+        r = refmatch.ev_pattern(self.ast, msg)
+        return self.tool.matches(msg) if r is None else r
+
+    def always(self):
+        return None
+
+
 def atom_matcher(matcher_mod, text):
-    """what decides whether one alternative selects a message: for the connection-only form an evaluator of our own, otherwise
-    the tool's parse of that single atom (its meaning is C05's business)"""
+    """what decides whether one alternative selects a message: for the connection-only form and for a bare object id an
+    evaluator of our own, otherwise the tool's parse of that single atom (its meaning is C05's business)"""
     mm = re.fullmatch(r'\s*([A-Za-z]+)\s*:\s*(\*\s*)?', text)
     if mm:
         return ConnOnly(mm.group(1))
+    mm = re.fullmatch(r'\s*(\d+)([a-z]*)\s*', text)
+    if mm:
+        return IdOnly(matcher_mod, text, int(mm.group(1)), mm.group(2))
     return matcher_mod.parse(text).simplify()
 
 
